@@ -38,7 +38,13 @@ fn all_subterms(terms: &[Tm]) -> Vec<Tm> {
 }
 
 pub fn run_closure(case: &Hist, dir: Dir, obs: &mut Obs) -> Result<(), String> {
-    crate::with_lang!(case.lang, L => run_closure_l::<L>(case, dir, obs))
+    crate::with_lang!(case.lang, L => run_closure_l::<L, ()>(case, dir, obs))
+}
+
+/// the same check on an e-graph that carries an analysis (smallest term size): unions then change class data, and
+/// analysis-only re-processing of e-nodes is interleaved with the structural one
+pub fn run_closure_analysis(case: &Hist, dir: Dir, obs: &mut Obs) -> Result<(), String> {
+    crate::with_lang!(case.lang, L => run_closure_l::<L, crate::analyses::MinSize>(case, dir, obs))
 }
 
 fn escalate(case: &Hist, upto_step: usize, n: usize) -> Ground {
@@ -57,7 +63,7 @@ fn escalate(case: &Hist, upto_step: usize, n: usize) -> Ground {
     g
 }
 
-fn run_closure_l<L: Language>(case: &Hist, dir: Dir, obs: &mut Obs) -> Result<(), String> {
+fn run_closure_l<L: Language, N: Analysis<L> + Default>(case: &Hist, dir: Dir, obs: &mut Obs) -> Result<(), String> {
     let nm = &case.naming;
     let terms = case.terms();
     if terms.is_empty() {
@@ -79,7 +85,7 @@ fn run_closure_l<L: Language>(case: &Hist, dir: Dir, obs: &mut Obs) -> Result<()
     }
     let mut big: Option<(usize, Ground)> = None;
 
-    let mut eg: EGraph<L> = EGraph::default();
+    let mut eg: EGraph<L, N> = EGraph::new(N::default());
     let mut ids: Vec<AppliedId> = Vec::new();
     let mut added: Vec<Tm> = Vec::new();
     let mut effective_unions = 0;
@@ -117,7 +123,7 @@ fn run_closure_l<L: Language>(case: &Hist, dir: Dir, obs: &mut Obs) -> Result<()
         // lookups
         let mut looked: Vec<(Tm, AppliedId)> = Vec::new();
         for s in &subs {
-            match lookup_tm::<L, ()>(&eg, s, nm) {
+            match lookup_tm::<L, N>(&eg, s, nm) {
                 Some(a) => looked.push((s.clone(), a)),
                 None => {
                     if dir == Dir::Complete {
@@ -155,7 +161,7 @@ fn run_closure_l<L: Language>(case: &Hist, dir: Dir, obs: &mut Obs) -> Result<()
                         if &tb2 == tb {
                             continue;
                         }
-                        match lookup_tm::<L, ()>(&eg, &tb2, nm) {
+                        match lookup_tm::<L, N>(&eg, &tb2, nm) {
                             Some(b2) => (tb2, b2),
                             None => {
                                 if dir == Dir::Complete {
